@@ -303,6 +303,12 @@ func shrink(c *rig.Ctx, cs Case, kind, class string) Case {
 func runAny(c *rig.Ctx, raw json.RawMessage, st *stats) bool {
 	var probe struct {
 		Dispatch []json.RawMessage `json:"dispatch"`
+		Race     json.RawMessage   `json:"race"`
+	}
+	if json.Unmarshal(raw, &probe) == nil && probe.Race != nil {
+		var rc RaceCase
+		json.Unmarshal(raw, &rc)
+		return runRace(c, rc)
 	}
 	if json.Unmarshal(raw, &probe) == nil && probe.Dispatch != nil {
 		var d DCase
@@ -315,6 +321,10 @@ func runAny(c *rig.Ctx, raw json.RawMessage, st *stats) bool {
 }
 
 func main() {
+	if spec := os.Getenv("VERIF_C03_RACE_CHILD"); spec != "" {
+		raceChild(spec)
+		return
+	}
 	lib.SilenceKlog()
 	rig.Main("C03", func(c *rig.Ctx) {
 		if !lib.CalibrateWorkers() {
@@ -421,6 +431,14 @@ func main() {
 					}
 				}
 			}
+		}
+		// race stream: requests while spec updates change the server set (child process; see race.go)
+		if !judged {
+			var rc RaceCase
+			rc.Race.Goroutines, rc.Race.Servers, rc.Race.Millis = 32, 6, c.Budget(1500, 10000)
+			c.Case(rig.Canon(rc), true, "race", nil)
+			c.Trace()
+			runRace(c, rc)
 		}
 		c.SetExtra("e2e_requests", e2e.pops)
 		c.SetExtra("e2e_forwarded", e2e.popOK)
